@@ -207,7 +207,8 @@ class IndividualSample(Spec):
         state = AState(cx, n)
         beta = cx.real("beta")
         return dict(args=(s, state), kwargs=dict(temperature_inv=beta), self=s, state=state, n=n, rest=rest,
-                    std=std, beta=beta)
+                    std=STensor(std.shape_, std.fn, std.dtype, "std@entry"),      # the scales at entry (sample() adapts them at the end)
+                    beta=beta)
 
     def pre(self, cx, st):
         I0 = st["state"].I0
